@@ -153,10 +153,10 @@ double RandomTools::incompleteGamma (double x, double alpha, double ln_gamma_alp
   double factor, gin = 0, rn = 0, a = 0, b = 0, an = 0, dif = 0, term = 0;
   vector<double> pn(6);
 
-  if (x == 0)
-    return 0;
   if (x < 0 || p <= 0)
     return -1;
+  if (x == 0)
+    return 0;
 
   factor = exp(p * log(x) - x - g);
   if (x > 1 && x >= p)
